@@ -422,6 +422,73 @@ def run_sideband(case):
             "nontrivial": ["sb:" + ",".join("%d/%d" % w for w in order)]}
 
 
+def run_report(case):
+    """pkt-lines nested in side-band channel 1 (the report-status a receive-pack server sends): the inner pkt-line stream is cut into
+    side-band frames at arbitrary points (every 2-way cut for short reports, random multi-way cuts, progress frames in between, and
+    dulwich's own write_sideband framing for reports beyond one frame), the outer stream is cut into arbitrary recv chunks, and the
+    client's decoder (GitClient._handle_receive_pack_tail) must return exactly the statuses that were encoded."""
+    from dulwich.client import ReportStatusParser, TCPGitClient
+    from dulwich.protocol import Protocol, ReceivableProtocol
+    rng = random.Random(case["seed"])
+    viol, n = [], 0
+    nrefs = case["nrefs"]
+    want, inner = {}, [b"unpack ok\n"]
+    for i in range(nrefs):
+        ref = b"refs/heads/" + (b"b%d" % i if nrefs <= 64 else b"branch-with-a-longer-name-%06d" % i)
+        if rng.random() < 0.3:
+            reason = rng.choice([b"non-fast-forward", b"failed to lock", b"hook declined", b"x"])
+            inner.append(b"ng " + ref + b" " + reason + b"\n")
+            want[ref] = reason.decode()
+        else:
+            inner.append(b"ok " + ref + b"\n")
+            want[ref] = None
+    stream = b"".join(b"%04x" % (len(x) + 4) + x for x in inner) + b"0000"
+    N = len(stream)
+    cutsets = [[]]
+    if N <= 120:
+        cutsets += [[c] for c in range(1, N)]
+    for _ in range(case.get("random_cuts", 12)):
+        cutsets.append(sorted(set(rng.randrange(1, N) for _ in range(rng.randint(1, 6)))))
+    framings = [("harness", cs) for cs in cutsets]
+    if N > 60000:
+        framings = [("dulwich-write_sideband", None)] + framings[:4]
+    for who, cs in framings:
+        out = io.BytesIO()
+        if who == "harness":
+            prev = 0
+            for c in cs + [N]:
+                piece = stream[prev:c]
+                prev = c
+                for a in range(0, len(piece), 65515):
+                    out.write(b"%04x" % (len(piece[a:a + 65515]) + 5) + b"\x01" + piece[a:a + 65515])
+                if rng.random() < 0.3:
+                    msg = b"remote: progress %d\r" % rng.randrange(100)
+                    out.write(b"%04x" % (len(msg) + 5) + b"\x02" + msg)
+            out.write(b"0000")
+        else:
+            pw = Protocol(lambda n_: b"", out.write)
+            pw.write_sideband(1, stream)
+            pw.write_pkt_line(None)
+        data = out.getvalue()
+        parts, _ = partitions(len(data), rng, 2, data)
+        for sizes in parts[:4]:
+            c = Chunker(data, sizes)
+            pr = ReceivableProtocol(c.recv, lambda b: None)
+            cl = TCPGitClient("127.0.0.1")
+            cl._report_status_parser = ReportStatusParser()
+            n += 1
+            try:
+                got = cl._handle_receive_pack_tail(pr, {b"side-band-64k", b"report-status"}, lambda b: None)
+            except Exception as e:
+                viol.append({"sig": "C19/report-status/%s-framing/raises-%s" % (who, type(e).__name__), "cuts": cs, "nrefs": nrefs, "msg": str(e)[:100]})
+                continue
+            if got != want:
+                viol.append({"sig": "C19/report-status/%s-framing/statuses-differ" % who, "cuts": cs, "nrefs": nrefs,
+                             "missing": len(set(want) - set(got or {})), "extra": len(set(got or {}) - set(want))})
+    return {"viol": viol[:20], "stats": {"report_status_decodes": n}, "evaluations": n,
+            "nontrivial": ["report:%d:%s" % (nrefs, "multi-frame" if N > 65515 else "one-frame")]}
+
+
 NONHEX = [b"+00a", b"-00a", b" 00a", b"00a ", b"0x0a", b"0_0a", b"00_a", b"000g", b"zzzz", b"\x00\x00\x00\x04",
           b"0005"[:3], b"00", b"0", b"000\n", b"\n000", b"00\t5", b"\xef\xbc\x90005", b"0005"[::-1], b"  05", b"1e+1",
           b"00.5", b"0X05", "\u0660\u0660".encode(), b"000A", b"000a", b"00Aa", b"FFFF", b"ffff", b"fFfF"]
@@ -625,7 +692,7 @@ def worker_exit():
 
 def run_case(case):
     return {"rt": run_rt, "mixed": run_mixed, "sideband": run_sideband, "hostile": run_hostile,
-            "caps": run_caps, "peer": run_peer}[case["kind"]](case)
+            "caps": run_caps, "peer": run_peer, "report": run_report}[case["kind"]](case)
 
 
 # ------------------------------------------------------------------------------ main
@@ -661,6 +728,10 @@ def main(ctx):
         cases.append({"kind": "sideband", "seed": "%d/sbr/%d" % (ctx.seed, i),
                       "writes": [[rng.choice([1, 2, 3]), rng.choice(SIZES + [131030, 131031, 300])]
                                  for _ in range(rng.randint(1, 5))]})
+    for i in range(ctx.budget(40, 400)):
+        cases.append({"kind": "report", "seed": "%d/rs/%d" % (ctx.seed, i), "nrefs": rng.choice([0, 1, 1, 2, 3, 5, 40])})
+    for i in range(ctx.budget(2, 12)):
+        cases.append({"kind": "report", "seed": "%d/rsl/%d" % (ctx.seed, i), "nrefs": rng.choice([1800, 2500, 4000]), "random_cuts": 3})
     step = 1024
     for a in range(0, 65536, step):
         cases.append({"kind": "hostile", "seed": "%d/h/%d" % (ctx.seed, a), "prefix_range": [a, a + step]})
